@@ -35,6 +35,12 @@ def scenarios(ctx, thorough):
         scs.append(S.mk(sid, "file-store-rotations", "salt",
                         [P(90), {"a": "Rotate"}, P(91), {"a": "Drain"}, {"a": "Rotate"}, P(92), {"a": "Push", "what": "new_session_newsalt"}, {"a": "Settle"},
                          P(93), {"a": "Settle"}], fresh=fresh, filestore=True))
+    # two salts announced in quick succession to a store whose first write lands late: the salt in the store at the end is the
+    # one in use (the writes of successive salts stay in order)
+    for k in (2, 3):
+        sid += 1
+        scs.append(S.mk(sid, "two-salts-slow-first-store", "salt", [P(90)] + [{"a": "Push", "what": "new_session_newsalt"}] * k +
+                        [{"a": "Sleep", "n": 900}, P(91), {"a": "Settle"}], slowfirst=True))
     # the rejection is processed while the sender is still inside the send section
     for fresh in (False, True):
         sid += 1
